@@ -515,6 +515,28 @@ func (c *Cluster) probeFameLag() {
 		if len(pr) == 0 {
 			continue
 		}
+		// rounds that are decided but wait behind an earlier open round; a witness
+		// that arrives in such a round is voted on although the round is "decided"
+		open := false
+		for _, p := range pr {
+			if !p.Decided {
+				open = true
+				continue
+			}
+			if !open {
+				continue
+			}
+			if n.queuedWitnesses == nil {
+				n.queuedWitnesses = map[int]int{}
+			}
+			nw := len(h.Store.RoundWitnesses(p.Index))
+			if old, ok := n.queuedWitnesses[p.Index]; !ok {
+				c.stats.probe("round-decided-behind-an-open-round")
+			} else if nw > old {
+				c.stats.probe("late-witness-arrived-in-a-decided-queued-round")
+			}
+			n.queuedWitnesses[p.Index] = nw
+		}
 		for _, p := range pr {
 			if p.Decided {
 				continue
